@@ -55,6 +55,11 @@ FarPts == IF N >= 2 THEN {PadN(<<17, 12, 12>>), PadN(<<99, 70, 70>>), PadN(<<577
 FarCoshSq(u, v) == R(MDot(u, v), S(u) * S(v))          \* -cosh d (both of norm -s^2); small enough not to overflow
 ASSUME PrintT("FAR " \o ToJson({[x |-> v, s |-> S(v), klein |-> Klein(v), poincare |-> Poincare(v),
                                     hyperboloid |-> Hyperboloid(v)] : v \in FarPts}))
+\* nearly coincident pairs (K, 1, 0, ..) and (K, 0, 1, ..): both have -<x,x> = K^2 - 1, so cosh d = K^2 / (K^2 - 1)
+\* exactly, i.e. cosh d - 1 = 1 / (K^2 - 1): distances 1.4e-2 ... 7e-5
+NearPairs == IF N >= 2 THEN {<<PadN(<<k, 1, 0>>), PadN(<<k, 0, 1>>), R(1, k * k - 1)>> : k \in {100, 1000, 5000, 20000}}
+             ELSE {}
+ASSUME PrintT("NEARPAIRS " \o ToJson(NearPairs))
 ASSUME PrintT("FARPAIRS " \o ToJson({<<u, v, FarCoshSq(u, v)>> : u \in FarPts, v \in FarPts}))
 
 Emit == PrintT("EMIT " \o ToJson([x |-> x, ideal |-> Ideal(x), from |-> [m |-> chart, c |-> c],
